@@ -28,7 +28,8 @@ RULE = ("histories = 1-3 coexisting models (more via new_model) + 4-40 ops out o
         "str, tuple, bool, 2**70, numpy scalar, 0-d array, frozenset, dict, Decimal, Fraction) through the constructor and "
         "create_agents, constructors raising before / after super().__init__(), callbacks raising in the middle of an activation, "
         "deepcopy / pickle round trip of a model (directly or through one of its agents / its AgentSet) whose copy must mirror every "
-        "view with its own agent objects, go on as a model of its own and leave the original alone, "
+        "view with its own agent objects, go on as a model of its own - continuing its own unique_id sequence - and leave the "
+        "original alone, "
         "n = 30; every view of every model is observed after every op and the oracle is evaluated after every atomic action "
         "(not inside a running remove()/remove_all_agents()); non-trivial = at least 3 ops, one creation and one removal or "
         "activation; distinct = by SHA1 of the history; enumerator (thorough / on a break): all sequences of length <= 3 (4) over 21 ops")
@@ -295,12 +296,8 @@ def gen_cases(rng, tier):
 
 N_EXOTIC = 12
 COPY_KINDS = ["pickle0", "pickle2", "pickle5", "pickle_default", "pickle_agent", "pickle_agentset", "deepcopy", "copy_agent"]
-# After copy.deepcopy / a pickle round trip of a model the id counter of the copy starts again at 1 (Agent._ids is keyed by the
-# model OBJECT): a FINDING of this check, see reports/g02.md and fixes/C02-1-*.diff.  The clause is evaluated when the fix is in
-# the tree under test (detected by the attribute the fix introduces) or when VERIF_C02_COPY_IDS=1.
-import os as _os
-
-CHECK_IDS_AFTER_COPY = _os.environ.get("VERIF_C02_COPY_IDS") == "1"
+# After copy.deepcopy / a pickle round trip a model must continue its OWN unique_id sequence (repaired by e21a71b: Agent._ids is
+# keyed by the model object, the model now carries the last id in its state); the clause is always evaluated.
 _UID = [0]
 
 
@@ -920,7 +917,7 @@ class _Driver:
             # the copy goes on as a model of its own: a new agent continues ITS id sequence, a removal leaves every view at once
             n_ever = self.s_count[m]
             a = self.classes[0](r, 1)
-            if (CHECK_IDS_AFTER_COPY or hasattr(r, "_last_agent_id")) and a.unique_id != n_ever + 1:
+            if a.unique_id != n_ever + 1:
                 self.fail("C02/Agent.unique_id/restarts-after-copy-or-pickle",
                           f"{what}: {n_ever} agents were ever created for the model (ids 1..{n_ever}); the next agent created for "
                           f"the copy got unique_id {a.unique_id} instead of {n_ever + 1} (ids in the copy: {[x.unique_id for x in r.agents]})")
@@ -1183,9 +1180,9 @@ LEVEL_TEXT = ("27 machine-checked Coq theorems (+ 6 examples) over a Gallina tra
               "supplies the failing input.")
 LEVEL_NOTE = ("Theorems are about the model. Not modelled: weak-reference death (harness keeps agents alive), remove() overrides beyond "
               "the four shapes or touching another model, user calls of register_agent; argument distribution of create_agents is in "
-              "the model and the correspondence but not an oracle clause (the statement does not speak about it). One defect found: a copied / unpickled "
-              "model restarts its unique_id sequence at 1 (key C02/Agent.unique_id/restarts-after-copy-or-pickle, repair in "
-              "fixes/C02-1-*.diff; the clause is evaluated when the repair is in the tree or VERIF_C02_COPY_IDS=1); observations: agents_by_type keeps empty sets for extinct classes (proved), create_agents "
+              "the model and the correspondence but not an oracle clause (the statement does not speak about it). One defect found and fixed (e21a71b, fixes/C02-1-*.diff): "
+              "a copied / unpickled model restarted its unique_id sequence at 1; the oracle clause (key "
+              "C02/Agent.unique_id/restarts-after-copy-or-pickle, oracle-only copy stream) is always evaluated; observations: agents_by_type keeps empty sets for extinct classes (proved), create_agents "
               "refuses a 0-d ndarray with TypeError before constructing anything, deregister_agent on an agent discarded from "
               "model.agents raises KeyError after updating two structures (user-inflicted). Trusted: Coq kernel, the T1 extractor, the "
               "driver/observer, CPython dict/WeakKeyDictionary ordering as modelled. No axioms.")
